@@ -161,8 +161,8 @@ impl Group for C07Wire {
     fn corpus(&self) -> Vec<Vec<String>> {
         let v = |s: &[&str]| s.iter().map(|x| x.to_string()).collect::<Vec<_>>();
         vec![
-            v(&["w_open 1", "w_close_empty", "w_probe", "w_restart", "w_close_ok"]),
-            v(&["w_open 0", "w_close_empty", "w_restart", "w_close_ok"]),
+            v(&["w_open 1", "w_close_empty", "w_probe", "w_restart", "w_close_ok", "w_restart_keep"]),
+            v(&["w_open 0", "w_close_empty", "w_restart", "w_close_ok", "w_restart_keep"]),
             v(&["w_open 1", "w_cp_overvalue", "w_probe", "w_restart", "w_cp_ok", "w_close_ok"]),
         ]
     }
@@ -260,6 +260,30 @@ impl Group for C07Wire {
                             } else {
                                 "restarted state=same".to_string()
                             }
+                        }
+                    }
+                }
+                "w_restart_keep" => {
+                    // an ordinary restart after an accepted request: the channel state (in particular
+                    // channel_closed) must come back exactly
+                    let wd = w.as_mut().unwrap();
+                    let pre = state_view(&wd.node, &wd.channel_id);
+                    let pre_closed = wd.node.with_channel(&wd.channel_id, |c| Ok(c.enforcement_state.channel_closed)).unwrap_or(false);
+                    match wd.restart() {
+                        Err(e) => format!("restart-failed {}", e),
+                        Ok(()) => {
+                            let post = state_view(&wd.node, &wd.channel_id);
+                            let post_closed = wd.node.with_channel(&wd.channel_id, |c| Ok(c.enforcement_state.channel_closed)).unwrap_or(false);
+                            if pre_closed && !post_closed {
+                                co.violations.push(Violation {
+                                    kind: "close-forgotten-after-restart".into(),
+                                    desc: "a closing signature was returned and channel_closed set, but after a restart from the persister the channel is open again".into(),
+                                    at: i,
+                                });
+                            } else if pre != post {
+                                co.violations.push(Violation { kind: "restart-changed-state".into(), desc: format!("{} vs {}", pre, post), at: i });
+                            }
+                            format!("restarted closed={}", post_closed as u8)
                         }
                     }
                 }
